@@ -1,0 +1,38 @@
+//go:build verif
+
+// Contracts for package zstd (comment-only; compiled only with the build tag "verif",
+// read by /verif/engine). Property C18 (pooled compressor state).
+
+package zstd
+
+//@ import zstd "github.com/klauspost/compress/zstd"
+//@ import sync "sync"
+//@ import io "io"
+
+// typestate of the pooled third-party (de)compressor: `busy` from Reset until Close (writer) / EOF (reader).
+// An object may be handed back to the pool only when it is not busy - otherwise another call could
+// Get and Reset it while this one is still flushing through it.
+//@ ghostfield any.busy Bool
+//@ func zstd.(*Encoder).Close
+//@   assumed
+//@   params w
+//@   ensures !w.busy
+//@   modifies w.busy
+//@ func zstd.(*Decoder).Read
+//@   assumed
+//@   params r, p
+//@   results n, err
+//@   ensures err == io.EOF ==> !r.busy
+//@   ensures err != io.EOF ==> r.busy == old(r.busy)
+//@   modifies r.busy, elems(p)
+
+// Close: the writer goes back to the pool only after the underlying compressor has been closed
+//@ func (*writer).Close
+//@   requires z != nil && z.Encoder != nil && z.pool != nil
+//@   before sync.(*Pool).Put assert [C18.pool.writer] !z.Encoder.busy
+//@   modifies z.Encoder.busy
+// Read: the reader goes back to the pool only at end of stream
+//@ func (*reader).Read
+//@   requires z != nil && z.Decoder != nil && z.pool != nil
+//@   before sync.(*Pool).Put assert [C18.pool.reader] !z.Decoder.busy
+//@   modifies z.Decoder.busy, elems(p)
